@@ -431,7 +431,7 @@ Definition rsa_decrypt (P : prims) (fx : fixes) (key ks : Z) (p : policy) (src :
 Definition verify_padding (fx : fixes) (d : bytes) (key_size pe : Z) : res Z :=
   if 256 <? key_size then
     if pe <? 2 then (if fx_padding fx then Err E_SEC else Panic P_PADDING) else
-    if len d <? pe then Panic P_PADDING else
+    if len d <? pe then (if fx_padding fx then Err E_SEC else Panic P_PADDING) else
     let pb := nth (Z.to_nat (pe - 2)) d 0 in
     let xb := nth (Z.to_nat (pe - 1)) d 0 in
     let ps := xb * 256 + pb in
@@ -440,7 +440,7 @@ Definition verify_padding (fx : fixes) (d : bytes) (key_size pe : Z) : res Z :=
     if all_eqb pb (slice start (pe - 1) d) then Ok start else Err E_SEC
   else
     if pe <? 1 then (if fx_padding fx then Err E_SEC else Panic P_PADDING) else
-    if len d <? pe then Panic P_PADDING else
+    if len d <? pe then (if fx_padding fx then Err E_SEC else Panic P_PADDING) else
     let pb := nth (Z.to_nat (pe - 1)) d 0 in
     if pe <? pb + 1 then (if fx_padding fx then Err E_SEC else Panic P_PADDING) else
     let start := pe - pb - 1 in
@@ -555,7 +555,8 @@ Definition validate_chunks (P : prims) (fx : fixes) (r : receiver) (start : Z) (
       if first <? start then Err E_SEC else
       do _ <- validate_from P fx r first 0 0 cs;
       let n := Z.of_nat (length cs) in
-      if U32 <=? first + n then (if fx_seq fx then Err E_SEC else Panic P_SEQ_OVERFLOW) else Ok (first + n - 1)
+      (* first + chunks.len() as u32 - 1 overflowed in its first addition; repaired: first + (len - 1) *)
+      if U32 <=? first + n then (if fx_seq fx then Ok (first + n - 1) else Panic P_SEQ_OVERFLOW) else Ok (first + n - 1)
   end.
 
 (* the reassembled body (node id + message); the binary decoding of the message is not part of
